@@ -407,4 +407,51 @@ def standin_confusion_maps(tier, seed):
                 cases=cases, distinct=cases, failures=len(uniq), exhaustive=True, _fails=uniq[:4])
 standin_confusion_maps.prop = "C02"
 
-STANDINS = [standin_born, standin_born_scenarios, standin_tableau_measure, standin_sampling_statistics, standin_keyed_channels, standin_sympy_conditions, standin_confusion_maps]
+
+def standin_measurement_orders(tier, seed):
+    """every ordered choice of 1-3 qubits out of an entangled 4-qubit register (one more qudit left unmeasured), as a terminal measurement and
+    followed by further operations: the record lists the measured qubits' digits in the order the measurement names them"""
+    import cirq
+
+    cases, fails = 0, []
+    q = cirq.LineQubit.range(4)
+    t = cirq.LineQid(4, dimension=3)
+    shift = cirq.MatrixGate(np.roll(np.eye(3), 1, axis=0), qid_shape=(3,))
+    # (|0101> + |1010>)/sqrt(2) on the qubits, the qutrit in |2>, and everything joined into one state by controlled phases
+    prep = [cirq.H(q[0]), cirq.CNOT(q[0], q[1]), cirq.CNOT(q[0], q[2]), cirq.CNOT(q[0], q[3]), cirq.X(q[1]), cirq.X(q[3]), shift(t), shift(t),
+            cirq.CZ(q[0], q[1]), cirq.CZ(q[1], q[2]), cirq.CZ(q[2], q[3]), cirq.Z(q[3]).controlled_by(t, control_values=[2])]
+    sims = [("Simulator", lambda s_: cirq.Simulator(seed=s_)), ("Simulator(split_untangled_states=False)", lambda s_: cirq.Simulator(seed=s_, split_untangled_states=False)),
+            ("DensityMatrixSimulator", lambda s_: cirq.DensityMatrixSimulator(seed=s_)), ("DensityMatrixSimulator(split_untangled_states=False)", lambda s_: cirq.DensityMatrixSimulator(seed=s_, split_untangled_states=False))]
+    reg = list(q) + [t]
+    pool = list(q) + [t]
+    orders = [o for k in (1, 2, 3) for o in itertools.permutations(pool, k)]
+    if tier == "quick":
+        orders = [o for o in orders if len(o) == 3][::2] + [o for o in orders if len(o) < 3][::3]
+    for order in orders:
+        for tail in ([], [cirq.X(order[0]) if order[0].dimension == 2 else shift(order[0]), cirq.measure(*reversed(order), key="again")]):
+            circ = cirq.Circuit(prep, cirq.measure(*order, key="m"), tail)
+            want = refsim.ref_distribution(circ, reg)
+            for name, mk in sims:
+                cases += 1
+                got = {}
+                try:
+                    for p_, rec in enumerate_branches(lambda r: _canon_records(mk(r).run(circ, repetitions=1)), max_branches=64):
+                        got[rec] = got.get(rec, 0.0) + p_
+                except RuntimeError:
+                    continue
+                if not refsim.dist_close(got, want, atol=1e-6):
+                    fails.append(dict(args=dict(simulator=name, measured=repr(list(order)), terminal=not tail, circuit=repr(circ)[:1500]), failed="measurement-order",
+                                      clause=f"{name}: measuring {list(order)} ({'terminal' if not tail else 'followed by more operations'}) gives {sorted((k, round(v, 4)) for k, v in got.items())}, "
+                                             f"the state gives {sorted((k, round(v, 4)) for k, v in want.items())}"))
+    seen, uniq = set(), []
+    for f_ in fails:
+        k = (f_["args"]["simulator"], f_["args"]["terminal"])
+        if k not in seen:
+            seen.add(k)
+            uniq.append(f_)
+    return dict(function=F + "/simulation_utils.py:state_probabilities_by_indices + state_vector / density_matrix measurement", case="measurement-orders",
+                bound="ordered choices of 1-3 of 5 qudits (4 entangled qubits and a qutrit; every choice in the thorough tier) x terminal / followed by operations x 4 simulator configurations",
+                cases=cases, distinct=cases, failures=len(uniq), exhaustive=(tier != "quick"), _fails=uniq[:4])
+standin_measurement_orders.prop = "C02"
+
+STANDINS = [standin_born, standin_born_scenarios, standin_tableau_measure, standin_sampling_statistics, standin_keyed_channels, standin_sympy_conditions, standin_confusion_maps, standin_measurement_orders]
